@@ -290,8 +290,9 @@ def make_case(rng, tier, feat=(), corrupt=None, mode=None, py2=False, nframes=No
                 # protocol 0 writes these names verbatim (ASCII without NUL, LF, CR, SUB, backslash)
                 for j, d in enumerate(items):
                     d["name"]["v"] = ("p0.%d.%s" % (j, rng.choice(["cpu", "a b", "q'x", "t;k=v", "x" * 200]))).encode().hex()
-            if modelable and proto in (2, 3) and items and rng.random() < .6:
-                # integers beyond int32: LONG1 (Model/PyPickle.py_dumpsL, C13_decode_what_python_encodes_long), every byte length up to 127
+            if modelable and proto in (2, 3, 4) and items and rng.random() < .6:
+                # integers beyond int32: LONG1 (Model/PyPickle.py_dumpsL / py_dumps4L, C13_decode_what_python_encodes_long[_protocol4]),
+                # every byte length up to 127
                 for d in items:
                     for k in ("ts", "val"):
                         if d[k]["k"] == "i" and rng.random() < .5:
@@ -478,11 +479,11 @@ MANIFEST = {
     "text": "Theorems (Props/C13.v): decoding (og-rek machine model) what CPython's pickler writes in protocols 0, 1, 2, 3 and 4 (Gallina models "
             "of the pickler per protocol, compared byte for byte with pickle.dumps on every run) gives back the datapoints, and a connection of any "
             "number of such frames, protocols 1-4 mixed, hands on exactly the equivalent plain-text lines in order (induction over items and "
-            "frames; protocol 0 per frame, given that ParseFloat(repr(x)) = x for the two float oracles); in protocols 2/3 also every non-negative "
-            "integer beyond int32 up to 2^1015 (LONG1: C13_decode_what_python_encodes_long, C13_frames_become_lines_long); per-item conversion and invalid-item "
+            "frames; protocol 0 per frame, given that ParseFloat(repr(x)) = x for the two float oracles); in protocols 2/3/4 also every non-negative "
+            "integer beyond int32 up to 2^1015 (LONG1: C13_decode_what_python_encodes_long[_protocol4], C13_frames_become_lines_long[_mixed_protocols]); per-item conversion and invalid-item "
             "counting. Tie: real input.NewPickle(d).Handle behind a scripted reader, fed CPython pickles of protocols 0-4, Python-2 style "
             "pickles, corrupted frames, every segmentation; expected lines computed from the Python-level data.",
-    "note": "partial: str fields, longs in protocols 0/1/4, negative integers (recorded finding for int32; negative longs differential only), non-ASCII names in protocol 0 (recorded finding), shared objects, "
+    "note": "partial: str fields, longs in protocols 0/1, negative integers (recorded finding for int32; negative longs differential only), non-ASCII names in protocol 0 (recorded finding), shared objects, "
             "multi-frame protocol-4 pickles and segmentation are covered by the differential run against the VM model and the Python-level "
             "expectation, not by the round-trip theorems (non-negative int32 and float fields, names below 2^31 bytes; protocol 0: names of "
             "verbatim ASCII). bufio and og-rek are library code modelled in Model/PickleVM.v. Four library-level defects are recorded as known "
